@@ -534,6 +534,14 @@ def fmt(ctx: Ctx) -> List[Ob]:
                 ok = None
         elif not vms and not any(vmname in norm(x) for x in ast.walk(lp) if isinstance(x, ast.Subscript)):
             ok = False
+        if not vm_key_is_mapped:
+            # the writer translates *every* value under a mapped key: the reader takes every int it finds there for an index
+            for n_, e_ in vms:
+                for a_, p_ in path_conds(ctx, f, n_):
+                    if vv in {x.id for x in ast.walk(a_) if isinstance(x, ast.Name)}:
+                        ok = False  # e.g. `isinstance(value, str)`: other values are written raw and read back as an index
+            if not vms and find(f"{dname}[$$dk] = {vmname}[$$vk].get({vv}, $$d)", lp):
+                ok = False  # an unlisted value is written raw instead of being refused
         O(["C05", "C12"], f, f"{q}: values are translated through value_map under the long key", ok,
           "value_map is keyed by the unmapped (long) key name on both sides (as documented); writer and reader must mirror", lp)
     # ---- call_mapper: only None means "keep the dict"
@@ -662,6 +670,14 @@ def fmt(ctx: Ctx) -> List[Ob]:
         # every returned dict is the mapper's result (or derived from it), not the dict built before the mapper ran
         rets = [c for c in exit_cases(ctx, td, ("return",)) if c.value is not None]
         ok = bool(rets) and all(any(v_ is mc[0] for v_ in reaching_values(ctx, td, c.stmt, c.value)) for c in rets)
+        # witness: on some path the entry is not this node's own mapped dict but one taken from a table (another node's)
+        for c in rets:
+            for v_ in reaching_values(ctx, td, c.stmt, c.value):
+                inner = v_.func.value if isinstance(v_, ast.Call) and isinstance(v_.func, ast.Attribute) and v_.func.attr in ("copy", "get") and not isinstance(v_.func.value, ast.Name) else v_
+                if isinstance(v_, ast.Call) and isinstance(v_.func, ast.Attribute) and v_.func.attr == "get" and isinstance(v_.func.value, ast.Name):
+                    inner = v_
+                if (isinstance(inner, ast.Subscript) and isinstance(inner.value, ast.Name)) or (inner is v_ and isinstance(v_, ast.Call) and isinstance(v_.func, ast.Attribute) and v_.func.attr == "get"):
+                    ok = False
     O(["C14"], td, "to_dict uses the dict returned by the mapper (a mapper may return a new dict)", ok,
       "a serialize mapper that returns a new dict instead of patching the passed one would be ignored")
     # the children are attached to the mapper's result, i.e. after it ran: a mapper that returns a new dict keeps them
